@@ -93,7 +93,9 @@ class Tr(pyrx.ClassTranslator):
         kept = []
         seen_bind = set()
         dead = set()          # names assigned only by skipped bracket-preparation code
-        for st in fn.body:
+        solver_at = [i for i, st in enumerate(fn.body) if _calls_solver(st)]
+        last_solver = max(solver_at) if solver_at else -1
+        for idx, st in enumerate(fn.body):
             if isinstance(st, ast.Expr) and isinstance(st.value, ast.Constant):
                 continue
             if isinstance(st, ast.FunctionDef):
@@ -109,6 +111,17 @@ class Tr(pyrx.ClassTranslator):
                     continue
             stored = _stored(st)
             if stored & set(opaque):
+                # Before / at the last solver call such a statement only prepares what the
+                # solver is given (the opaque names are universally quantified parameters).
+                # AFTER it, the only thing that may touch an opaque name is the acceptance of
+                # the solver's result (`if res.converged: x = res.root else: raise`); anything
+                # else (clamping, rounding, re-solving by hand ...) changes what is returned
+                # and is not modelled: fail closed.
+                if idx > last_solver and not _is_acceptance(st, opaque):
+                    raise TranslateError(
+                        "%s: `%s` (line %d) re-assigns the solver result %s after it was "
+                        "accepted" % (method, ast.unparse(st).splitlines()[0][:70], st.lineno,
+                                      sorted(stored & set(opaque))))
                 # must not assign anything else that later code needs
                 dead |= stored - set(opaque)
                 continue
@@ -301,6 +314,29 @@ def _calls_solver(st):
     return False
 
 
+def _is_acceptance(st, opaque):
+    """`x: float` | `if res.converged|success: x = res.root|x  else: raise ...`"""
+    import re
+    if isinstance(st, ast.AnnAssign) and st.value is None:
+        return True
+    if not isinstance(st, ast.If):
+        return False
+    m = re.match(r"^(\w+)\.(converged|success)$", ast.unparse(st.test))
+    if not m or m.group(1) not in opaque:
+        return False
+    for b in st.body:
+        if isinstance(b, ast.AnnAssign) and b.value is not None:
+            tg, val = b.target, b.value
+        elif isinstance(b, ast.Assign) and len(b.targets) == 1:
+            tg, val = b.targets[0], b.value
+        else:
+            return False
+        if not (isinstance(tg, ast.Name) and tg.id in opaque and
+                re.match(r"^%s\.(root|x)$" % re.escape(m.group(1)), ast.unparse(val))):
+            return False
+    return bool(st.orelse) and all(isinstance(o, ast.Raise) for o in st.orelse)
+
+
 def _only_raises(st):
     """`if c: raise` possibly with elif/else that also only raise"""
     for b in (st.body, st.orelse):
@@ -364,21 +400,22 @@ def jouguet_orchestration(tr):
     k = [i for i, st in enumerate(body) if isinstance(st, ast.FunctionDef)]
     if len(k) != 1 or body[k[0]].name != "vpDerivNum":
         raise TranslateError("findJouguetVelocity: expected exactly the closure vpDerivNum")
-    rest = body[k[0] + 1:]
+    # a bare annotation (`tmSol: float`) carries no semantics wherever it stands
+    rest = [st for st in body[k[0] + 1:]
+            if not (isinstance(st, ast.AnnAssign) and st.value is None)]
     BR = ast.unparse(ast.parse("bracket1, bracket2 = vpDerivNum(Tmin), vpDerivNum(Tmax)"))
 
     def shape(cond, what):
         if not cond:
             raise TranslateError("findJouguetVelocity: unexpected bracket orchestration (%s)"
                                  % what)
-    shape(len(rest) == 9, "%d statements after vpDerivNum, expected 9" % len(rest))
-    s_tmin, s_tmax, s_br, s_while, s_ann, s_choice, s_conv, s_vp, s_ret = rest
+    shape(len(rest) == 8, "%d statements after vpDerivNum, expected 8" % len(rest))
+    s_tmin, s_tmax, s_br, s_while, s_choice, s_conv, s_vp, s_ret = rest
     for st, nm in ((s_tmin, "Tmin"), (s_tmax, "Tmax")):
         shape(isinstance(st, ast.Assign) and ast.unparse(st.targets[0]) == nm, "initial " + nm)
     shape(isinstance(s_br, ast.Assign) and ast.unparse(s_br) == BR, "initial bracket values")
     shape(isinstance(s_while, ast.While) and not s_while.orelse and
           ast.unparse(s_while.body[-1]) == BR, "while loop re-evaluating the bracket")
-    shape(isinstance(s_ann, ast.AnnAssign) and s_ann.value is None, "tmSol annotation")
     shape(isinstance(s_choice, ast.If) and len(s_choice.body) == 1 and len(s_choice.orelse) == 1
           and all(isinstance(b, ast.Assign) and ast.unparse(b.targets[0]) == "rootResult"
                   for b in (s_choice.body[0], s_choice.orelse[0])), "brentq/secant choice")
@@ -390,7 +427,7 @@ def jouguet_orchestration(tr):
     shape(sc and sc[0] == "vpDerivNum" and "x0" in sc[1] and "x1" in sc[1],
           "secant call on vpDerivNum with x0, x1")
     shape(isinstance(s_conv, ast.If) and ast.unparse(s_conv.test) == "rootResult.converged" and
-          len(s_conv.body) == 1 and ast.unparse(s_conv.body[0]) == "tmSol = rootResult.root" and
+          len(s_conv.body) == 1 and _is_acceptance(s_conv, ["rootResult", "tmSol"]) and
           len(s_conv.orelse) == 1 and isinstance(s_conv.orelse[0], ast.Raise),
           "only a converged root is accepted, otherwise WallGoError")
     shape(isinstance(s_ret, ast.Return), "return")
@@ -433,7 +470,7 @@ def jouguet_orchestration(tr):
     defs.append("Definition jouguet_secant_start (e : %senv) (Tmin Tmax : R) : R * R :=\n"
                 "  (%s, %s)." % (px, tr.expr(sc[1]["x0"], env), tr.expr(sc[1]["x1"], env)))
     tr.spans["jouguet_orchestration"] = (s_tmin.lineno, s_conv.end_lineno,
-                                         pyrx._sha("".join(ast.unparse(x) for x in rest[:7])))
+                                         pyrx._sha("".join(ast.unparse(x) for x in rest[:6])))
     return "\n".join(defs)
 
 # ---------------------------------------------------------------------------------------
